@@ -24,7 +24,8 @@ Record tenv := mkte { t_item : list Z; t_chunk : list Z; t_decoded : list Z; t_e
 
 Inductive tout :=
 | TOFall (e : tenv) (s : tst)
-| TODone (s : tst) (r : tres).
+| TODone (s : tst) (r : tres)
+| TOStuck.                       (* outside the language's meaning: no model result matches it *)
 
 Definition run_tatom (a : tatom) (e : tenv) (s : tst) : tout :=
   match a with
@@ -53,7 +54,8 @@ Fixpoint run_tblock (p : tstmt) (e : tenv) (s : tst) : tout :=
   | TAtom a => run_tatom a e s
   | TIfDecodedReturn => match t_decoded e with [] => TOFall e s | _ :: _ => TODone s (TStr (t_decoded e)) end
   | TSeq a b => match run_tblock a e s with TOFall e1 s1 => run_tblock b e1 s1 | o => o end
-  | TWhileTrue _ => TOFall e s          (* no nested loops: never generated (the translator refuses them) *)
+  | TWhileTrue _ => TOStuck             (* a loop anywhere but as the whole method body has no meaning here (the
+                                            translator refuses it as well; audit finding: it used to be skipped silently) *)
   end.
 
 Fixpoint tloop (fuel : nat) (b : tstmt) (e : tenv) (s : tst) : option tout :=
@@ -82,5 +84,5 @@ Definition g_send (p : tstmt) (s : tst) (item : list Z) : option (tst * tres) :=
   match texec 1 p (tenv0 item) s with
   | Some (TODone s' r) => Some (s', r)
   | Some (TOFall e s') => Some (s', TSent (t_encoded e))
-  | None => None
+  | Some TOStuck | None => None
   end.
